@@ -7,6 +7,9 @@ Decided (structural):
  * the BFS stream equations (K3/K5): merge, bind, Conj/Disj/InferredConj solve, engine step
    (explicit arm per Lazy variant), Solver::start / next, the BFS fold of conde, map_sum;
  * conjunction constructors keep both goals.
+ (round 4, shared) builders.check_all; operator search kinds from typed signatures; the clause
+   translation table of the macro (bare true/false, ==, != ... per Clause variant; with C14);
+   Conde::from_array keeps one branch per listed goal.
 """
 import mirlib
 import streams
@@ -277,3 +280,18 @@ def run(ctx, fb, cfg):
     import C13
 
     C13.check_conde_builder(ctx, lib, R + "K6.conde-builder")
+    # every goal-array builder is a total, order-preserving fold from the neutral element (shared rule)
+    import builders
+
+    builders.check_all(ctx, lib, R + "K6.builders")
+    streams.check_operator_kinds(ctx, lib, R + "K10.operator-search-kind")
+    # bare `true` / `false` clauses and the other clause kinds expand to the goals the reference semantics
+    # gives them (template table shared with C14)
+    if cfg == "lib-default":
+        import C14
+        import C15
+        import macrolib
+
+        S = macrolib.load_sem(ctx, fb)
+        if S is not None:
+            C14.check_emitters(C15._Prefixed(ctx, "C06"), S)
